@@ -62,7 +62,7 @@ Link(l)    == [t |-> "link", m |-> 0, l |-> l,  c |-> ""]
 (*         parents first; file kinds: one entry with p = <<>>)             *)
 (*   mode  install_mode permission bits, -1 = not given                    *)
 (*   tag   install_tag, "" = not given;  ext = suffix of the installed name*)
-(*   to    pointing_to (symlink)                                           *)
+(*   to    pointing_to (symlink);  fl  follow_symlinks: "" | "true" | "false"  *)
 (***************************************************************************)
 Rel(p) == [k |-> "rel", p |-> p]
 
@@ -100,18 +100,25 @@ NewDirMode(o) == AndNot(511, IF o.umask >= 0 THEN o.umask ELSE o.eumask)
 \* ---- install_subdir -------------------------------------------------------------
 SubBase(o, i) == AbsOf(o, i.dir) \o (IF i.strip THEN <<>> ELSE <<LastOf(i.src)>>)
 Excluded(i, e) ==
-    IF e.t = "file"
+    IF e.t # "dir"
     THEN e.p \in Rng(i.exf) \/ \E a \in Ancestors(e.p) \ {<<>>} : a \in Rng(i.exd)
     ELSE \E a \in SelfAndAnc(e.p) \ {<<>>} : a \in Rng(i.exd)
 Kept(i) == { e \in Rng(i.st) : ~Excluded(i, e) }
 
 \* ---- what one rule puts into the tree ----------------------------------------------
+\* what one source entry becomes.  A source that is a symbolic link (t = "link": l = its text, r = "file" / "fixed" when
+\* it resolves to a regular file whose mode/content are m/c, "none" when it dangles) is dereferenced and copied unless
+\* follow_symlinks is false (i.fl = "false"; the default still follows); a dangling link is replicated as it is.
+\* A copied link has no permissions of its own, and installing it changes nothing else.
+EntryNode(o, i, e) ==
+    IF e.t = "link" /\ (e.r = "none" \/ i.fl = "false") THEN Link(e.l)
+    ELSE File(ModeOf(o, i, e.m), e.c)
 \* leaves: files and links, [p |-> path, n |-> node]
 Leaves(o, i) ==
     CASE i.kind \in {"data", "header", "man", "target"} ->
-           { [p |-> FileDest(o, i), n |-> File(ModeOf(o, i, i.st[1].m), i.st[1].c)] }
+           { [p |-> FileDest(o, i), n |-> EntryNode(o, i, i.st[1])] }
       [] i.kind = "subdir" ->
-           { [p |-> SubBase(o, i) \o e.p, n |-> File(ModeOf(o, i, e.m), e.c)] : e \in { x \in Kept(i) : x.t = "file" } }
+           { [p |-> SubBase(o, i) \o e.p, n |-> EntryNode(o, i, e)] : e \in { x \in Kept(i) : x.t # "dir" } }
       [] i.kind = "symlink" ->
            { [p |-> AbsOf(o, i.dir) \o <<LastOf(i.src)>>, n |-> Link(i.to)] }
       [] OTHER -> {}
